@@ -1056,7 +1056,7 @@ fn stub_body(c: &StubCase, rec: &mut Rec) -> CaseResult {
 
 pub fn check() -> Option<Check> {
     // ~0.15 ms per case on 16 threads: quick ~15 s + ~5 s, thorough ~7 min + ~1.5 min
-    let recursor = prop_hang("recursor", 100_000, 3_000_000, Duration::from_secs(60), |_tier| internet::net_case(), net_body);
+    let recursor = prop_hang("recursor", 200_000, 3_000_000, Duration::from_secs(60), |_tier| internet::net_case(), net_body);
     let stub = prop_hang("stub_alias", 200_000, 4_000_000, Duration::from_secs(30), |_tier| stub_case(), stub_body);
     Some(Check {
         id: "C19",
